@@ -8,7 +8,7 @@ LEVEL = 'model_checking'
 def run(rep: Report, tier: str, only=None) -> None:
 	thorough = tier == 'thorough'
 	t = 900 if thorough else 150
-	bit_bound = 1 << 12 if thorough else 1 << 8
+	bit_bound = 1 << 5 if thorough else 1 << 3
 	jobs: list[Job] = []
 	for op in ['+', '-', '*', '%']:
 		jobs.append(Job('K1.int_binop', H, 'int_binop', {'op': op}, t, 'S', 'unbounded symbolic ints', ('value',)))
@@ -23,23 +23,23 @@ def run(rep: Report, tier: str, only=None) -> None:
 				bound = {'bound': 1 << 10} if o1 in ('*', '%', '<<', '>>') or o2 in ('*', '%', '<<', '>>') else {}
 				jobs.append(Job('K1.int_chain', H, 'int_chain', {'op': o1, 'op2': o2, 'shift_max': 8, **bound}, t, 'S', 'left fold of three operands, same precedence level' + (', |operand| < 1024, shifts 0..8' if bound else ', unbounded ints'), ('value',)))
 	jobs.append(Job('K1.unary', H, 'unary_sign', {}, t, 'S', 'unbounded symbolic int, sign symbolic'))
-	n_lit = 6 if thorough else 4
-	lit_classes = ['0', '123456789', 'xX', 'abcdef', 'ABCDEF', '_']
+	n_lit = 4 if thorough else 3
+	lit_classes = ['0', '1', '9', 'x', 'X', 'a', 'F', '_'] if thorough else ['0', '1', 'x', 'X', 'a', 'F', '_']  # int(str) realises its argument: single characters, not classes
 	for c in class_splits(lit_classes, 1, n_lit):
-		jobs.append(Job('K3.integer_literal', H, 'integer_literal', c, t, 'S', f'literal text <= {n_lit} over [0 | 1-9 | xX | a-f | A-F | _] inside DEC_NUMBER / HEX_NUMBER', ('hex', 'value')))
+		jobs.append(Job('K3.integer_literal', H, 'integer_literal', c, t, 'S', f'literal text <= {n_lit} over {lit_classes} inside DEC_NUMBER / HEX_NUMBER', ('hex', 'value')))
 	n_str = 5 if thorough else 4
 	str_classes = ['"', "'", 'abcdefghijklmnopqrstuvwxyz ', '0123456789']
 	for lq in range(3):
 		for rq in range(3):
 			jobs.append(Job('K4.string_concat', H, 'string_concat', {'classes': str_classes, 'n': n_str - 2, 'lq': lq, 'rq': rq}, t, 'S', f'quote kinds (", \', triple ") x symbolic contents <= {n_str - 2} over [" | \' | letters/blank | digits], no escapes', ('quote_in_content',)))
 	for cast in ['int', 'float', 'str']:
-		jobs.append(Job('K5.cast', H, 'cast_of_int', {'cast': cast}, t, 'S', f'{cast}(<unbounded symbolic int>)'))
+		jobs.append(Job('K5.cast', H, 'cast_of_int', {'cast': cast, **({'bound': 200} if cast == 'str' else {})}, t, 'S', f'{cast}(<symbolic int>)' + (' |v| < 200 (decimal rendering is realised)' if cast == 'str' else ' unbounded')))
 		jobs.append(Job('K5.cast', H, 'cast_of_string', {'cast': cast, 'classes': ['"', "'", '0123456789', '.', 'abc', ' -'], 'n': n_str}, t, 'S', f'{cast}(<literal text <= {n_str}>) plain quoted literal without escapes'))
 	if only:
 		jobs = [j for j in jobs if j.obligation in only or j.obligation.split('.')[0] in only]
 	rep.functions = ['LiteralEvaluator._op_bin_each', 'LiteralEvaluator._calc', 'LiteralEvaluator._bitwise', 'LiteralEvaluator._allow_string', 'LiteralEvaluator._cat',
 		'LiteralEvaluator.on_integer', 'LiteralEvaluator.on_factor', 'LiteralEvaluator.on_func_call']
-	rep.bounds = {'ints': 'unbounded (mathematical) for + - * % and shifts (count <= 64); |x| < 2^8 quick / 2^12 thorough for | ^ &', 'literal text': f'<= {n_lit} (numbers) / <= {n_str} (strings)',
+	rep.bounds = {'ints': 'unbounded (mathematical) for + - * % and shifts (count <= 64); | ^ & through CrossHair only for |x| < 8 quick / 32 thorough (no bit-vector theory on mathematical ints) and through K2 on all signed 64-bit operands', 'literal text': f'<= {n_lit} (numbers) / <= {n_str} (strings)',
 		'K2': 'signed 64-bit integer operands, finite binary64 float operands'}
 	rep.assumptions = [
 		'a handler exception is a refusal: Procedure wraps every handler exception into an Errors.Error (C07/C09 check that wrapping); only a different value violates C17',
@@ -49,10 +49,15 @@ def run(rep: Report, tier: str, only=None) -> None:
 	]
 	rep.outside = ['float o float chains beyond the single operations of K2 (CrossHair models floats as reals)', 'enum member references and the text emitted by py2cpp.on_relay (needs the pipeline)', 'string escapes, string prefixes']
 	rep.extra['trusted_base'] = ['CrossHair 0.0.110', 'z3 5.1.0', 'cvc5 1.4.0 (fp-exp)', 'smt/specialise.py abstract interpreter of the evaluator source', 'harness reference models']
-	rep.run_jobs(jobs)
+	k2_thread = None
 	if not only or 'K2' in only:
+		import threading
 		from smt import k2
-		k2.run(rep, tier)
+		k2_thread = threading.Thread(target=k2.run, args=(rep, tier))
+		k2_thread.start()  # the direct SMT queries run next to the CrossHair jobs
+	rep.run_jobs(jobs)
+	if k2_thread:
+		k2_thread.join()
 	rep.check_recorded()
 
 
